@@ -116,7 +116,7 @@ def plan(tier, seed):
                   extra={"positions_after_first": 3 if tier == "quick" else 4})
         n = {2: 1, 3: 16, 4: 32}[depth]
         if depth >= 4:
-            kw["max_transitions"] = 250000
+            kw["max_transitions"] = 40000
         tasks += seqcheck.split(n, **kw)
     return tasks
 
